@@ -45,7 +45,8 @@ def scenario(rng, nthreads):
         elif pat == "extra-ref":
             ops += ["ref %d" % h, "go %d 1" % h, "unref %d" % h, "go %d 2" % h, "join %d" % h, "ref %d" % h, "unref %d" % h, "unref %d" % h]
         elif pat == "late-unref":
-            ops += ["go %d 1" % h, "waitst %d 2" % h, "go %d 2" % h, "join %d" % h, "join %d" % h, "unref %d" % h]
+            # a second join (after other threads came and went: the native id of the first join is stale by then) yields the code again
+            ops += ["go %d 1" % h, "waitst %d 2" % h, "go %d 2" % h, "join %d" % h] + (["churn 80"] if rng.random() < 0.3 else []) + ["join %d" % h, "unref %d" % h]
         elif pat == "finished-before-unref":
             ops += ["go %d 1" % h, "go %d 2" % h, "waitst %d 3" % h, "unref %d" % h]
         elif pat == "extra-ref-detached":
@@ -142,7 +143,7 @@ def run(ctx):
                 rc, out, to = run_driver([exe, sp, base], timeout=120, env=qenv)
                 if to or rc != 0:
                     kind = "hang" if to else ("memory-error" if "Sanitizer" in out else "crash")
-                    ctx.violation("%s:%s" % (variant, kind), "thread scenarios (%s build): %s: %s" % (variant, kind, out[-600:]), [sp])
+                    ctx.violation("%s:%s" % (variant, kind), "thread scenarios (%s build): %s (driver exit status %s, twice; a negative status is a signal): %s" % (variant, kind, rc, out[-600:]), [sp])
                     continue
             p, evs = traces.merge(base)
             ctx.events += len(evs)
